@@ -487,9 +487,17 @@ class Framer(tasking.Tasker):
             console.profuse("    False, empty enters\n")
             return False
 
+        claimed = []  # original auxes claimed by frames earlier in enters
         for frame in enters:
             if not frame.checkEnter(exits=exits):
                 return False
+            for aux in frame.auxes:
+                if aux.original:
+                    if aux in claimed:  # would be active under two frames at once
+                        console.concise("    False. Invalid aux '{0}' in use by two"
+                                        " entering frames\n".format(aux.name))
+                        return False
+                    claimed.append(aux)
         console.profuse("    True all {0}\n".format(self.name))
         return True
 
